@@ -69,6 +69,22 @@ static void a_handler(const unsigned char *req, size_t n, vbuf *resp, void *user
 	vb_put(&A.last, req, n);
 }
 
+/* request header callback: the caller adds an instance id and a message id to every request header (the blocking clients
+ * run it just before the PDU is serialized; the asynchronous service composes its own header and does not use it) */
+static int g_hdrcb;
+#define A_INST 0x1122334455ULL
+#define A_MSG 9ULL
+static int a_hdr_cb(KSI_Header *hdr) {
+	KSI_CTX *c = KSI_Header_getCtx(hdr);
+	KSI_Integer *a = NULL, *b = NULL, *old = NULL;
+	if (KSI_Integer_new(c, A_INST, &a) != KSI_OK || KSI_Integer_new(c, A_MSG, &b) != KSI_OK) { KSI_Integer_free(a); KSI_Integer_free(b); return KSI_OUT_OF_MEMORY; }
+	KSI_Header_getInstanceId(hdr, &old); KSI_Integer_free(old);
+	KSI_Header_setInstanceId(hdr, a);
+	old = NULL; KSI_Header_getMessageId(hdr, &old); KSI_Integer_free(old);
+	KSI_Header_setMessageId(hdr, b);
+	return KSI_OK;
+}
+
 static int a_ncontent(int sv) { return sv == SV_AGGR ? 12 : sv == SV_EXT ? 2 : 1; }
 
 /* drive an asynchronous service until the request reached the transport (or cannot) */
@@ -97,7 +113,8 @@ static void a_one(int sv, int ver, int alg, const char *key, size_t keylen, int 
 
 	srv_install(a_handler, NULL);
 	A.nreq = 0; vb_reset(&A.last);
-	snprintf(tag, sizeof tag, "req:%s:v%d:alg%d", SVNAME[sv], ver, alg);
+	snprintf(tag, sizeof tag, "req:%s:v%d:alg%d%s", SVNAME[sv], ver, alg, g_hdrcb ? ":hdrcb" : "");
+	if (g_hdrcb && KSI_CTX_setRequestHeaderCallback(ctx, a_hdr_cb) != KSI_OK) vf_harness_error("header callback refused");
 	KSI_CTX_setOption(ctx, is_aggr ? KSI_OPT_AGGR_PDU_VER : KSI_OPT_EXT_PDU_VER, (void *)(size_t)ver);
 	if (is_aggr) KSI_CTX_setAggregatorHmacAlgorithm(ctx, (size_t)alg); else KSI_CTX_setExtenderHmacAlgorithm(ctx, (size_t)alg);
 	if (sv == SV_AGGR) { hl = ref_fake_imprint(DOCALGS[content / 3], 11u + (unsigned)content, h); level = LEVELS[content % 3]; }
@@ -206,6 +223,9 @@ static void a_one(int sv, int ver, int alg, const char *key, size_t keylen, int 
 	else {
 		if (!r.header_first) vf_fail("request-header-not-first", "%s: header is not the first element", tag);
 		if (strcmp(r.login, login) != 0) vf_fail("request-login", "%s: login id '%s' on the wire, configured '%s'", tag, r.login, login);
+		if (g_hdrcb && CL_IS_SYNC(client) && !(r.has_instance && r.instance_id == A_INST && r.has_msgid && r.message_id == A_MSG))
+			vf_fail("request-header-callback", "%s %s: the header on the wire (instance id %s%llx, message id %s%llu) is not the one the caller's header callback produced", tag, CLNAME[client],
+			        r.has_instance ? "" : "absent ", (unsigned long long)r.instance_id, r.has_msgid ? "" : "absent ", (unsigned long long)r.message_id);
 	}
 	if (!r.has_mac) vf_fail("request-no-mac", "%s: request PDU without MAC", tag);
 	else {
@@ -236,18 +256,22 @@ done:
 }
 
 static void part_a(void) {
-	int sv, ver, ai, ki, li, cl, c;
+	int sv, ver, ai, ki, li, cl, c, cb;
+	for (cb = 0; cb < 2; cb++)
 	for (sv = 0; sv < SV_N; sv++) for (ver = 2; ver >= 1; ver--) for (ai = 0; ai < NMACALG; ai++) for (ki = 0; ki < NKEYLEN; ki++)
 	for (li = 0; li < 3; li++) for (cl = CL_STCP; cl <= CL_AHTTP; cl++) {
 		int alg = MACALGS[ai];
 		if (!ref_backend_supports(alg)) continue;
-		if (!VF_THOROUGH) {
+		/* with a request header callback: keys of 1 and 65 bytes, first login id, every service / version / client (thorough: every algorithm) */
+		if (cb && !((ki == 0 || ki == 7) && li == 0 && (ai == 0 || VF_THOROUGH))) continue;
+		g_hdrcb = cb;
+		if (!VF_THOROUGH && !cb) {
 			/* quick: (all key lengths x SHA-256 x blocking TCP x all login ids) + (all algorithms x keys {1,64,65,65535} x all clients x login ids 0/2) */
 			int wide = (ai == 0 && cl == CL_STCP);
 			int narrow = (ki == 0 || ki == 6 || ki == 7 || ki == 12) && li != 1;
 			if (!wide && !narrow) continue;
 		}
-		if (!vf_case_begin("A:%s:v%d:a%d:k%d:l%d:%s", SVNAME[sv], ver, alg, KEYLENS[ki], li, CLNAME[cl])) continue;
+		if (!vf_case_begin("A%s:%s:v%d:a%d:k%d:l%d:%s", cb ? "cb" : "", SVNAME[sv], ver, alg, KEYLENS[ki], li, CLNAME[cl])) continue;
 		{
 			const char *key = make_key(KEYLENS[ki]);
 			int nc = a_ncontent(sv);
@@ -262,8 +286,12 @@ static void part_a(void) {
 }
 
 /* ====================================================================== Part B: responses */
-enum { K_AGGR = 0, K_EXT, K_ACONF, K_ECONF, K_N };
-static const char *KNAME[K_N] = {"aggr", "ext", "aconf", "econf"};
+enum { K_AGGR = 0, K_EXT, K_ACONF, K_ECONF, K_APUSH, K_EPUSH, K_N };
+/* K_APUSH / K_EPUSH: an ordinary (PDU v2) response that carries an unrequested configuration as a second payload; the
+ * configuration reaches the caller through the configuration callback */
+#define KBASE(k) ((k) == K_APUSH ? K_AGGR : (k) == K_EPUSH ? K_EXT : (k))
+#define KPUSH(k) ((k) == K_APUSH || (k) == K_EPUSH)
+static const char *KNAME[K_N] = {"aggr", "ext", "aconf", "econf", "aggr+conf", "ext+conf"};
 enum { M_NONE = 0, M_FLIP, M_TRUNC, M_KEY, M_ALG, M_ALG_UNPIN, M_ALG_UNPIN_BADKEY, M_VERSION, M_NO_HEADER, M_NO_MAC, M_MAC_FIRST, M_HEADER_LAST, M_BAD_MAC,
        M_EP0_BAD, M_CROSS_KEY, M_SPLICE, M_N };
 static const char *MNAME[M_N] = {"authentic", "flip", "trunc", "other-key", "other-alg", "other-alg-unpinned", "unpinned-bad-key", "other-version", "no-header", "no-mac",
@@ -290,7 +318,7 @@ typedef struct {
 } b_state;
 static b_state B;
 
-static int kind_is_aggr(int kind) { return kind == K_AGGR || kind == K_ACONF; }
+static int kind_is_aggr(int kind) { return kind == K_AGGR || kind == K_ACONF || kind == K_APUSH; }
 static void b_reset(void) {
 	vbuf a0 = B.auth[0], a1 = B.auth[1], s0 = B.sent[0], s1 = B.sent[1];
 	memset(&B, 0, sizeof B);
@@ -363,7 +391,7 @@ static void build_response(vbuf *out, const rp_req *r, int ep, int version, int 
 	e.version = version; e.kind = kind_is_aggr(B.kind) ? RP_AGGR : RP_EXT; e.login = B_login_override ? B_login_override : B.login[ep]; e.mac_alg = alg; e.key = key; e.keylen = keylen; e.flags = flags;
 	e.with_ids = 1; e.instance_id = 0x1234; e.message_id = 7;
 	vb_init(&body); vb_init(&payload);
-	switch (B.kind) {
+	switch (KBASE(B.kind)) {
 		case K_AGGR: {
 			rsig sig;
 			rp_aggregate(&sig, r->hash, r->hash_len, 0, 0, 1, B_TA, B_TA + 86400 * 3);
@@ -389,6 +417,8 @@ static void build_response(vbuf *out, const rp_req *r, int ep, int version, int 
 			else rp_ext_resp_payload(&payload, 1, id, 1, 0, NULL, 1, B_PHEAD, NULL, 0);      /* only used for the other-version deviation */
 			break;
 	}
+	if (B.kind == K_APUSH) rp_aggr_conf_payload(&payload, 17, 1, 1000, 12, ACONF_URI);
+	if (B.kind == K_EPUSH) rp_ext_conf_payload(&payload, 12, ECONF_URI, 1136073600LL + 1000, (int64_t)B_PHEAD);
 	rp_wrap_response(out, &e, payload.p, payload.n);
 	vb_free(&body); vb_free(&payload);
 }
@@ -529,6 +559,17 @@ static void ext_source(rsig *src) {
 	rs_build(src, &p);
 }
 
+/* pushed configuration as the caller's callback sees it */
+static vbuf G_cb;
+static int G_cb_calls;
+static int push_cb(KSI_CTX *ctx, KSI_Config *cfg) {
+	(void)ctx;
+	G_cb_calls++;
+	vb_put(&G_cb, "|CONF:", 6);
+	if (cfg) cfg_string(cfg, &G_cb);
+	return KSI_OK;
+}
+
 /* one call through the chosen client against b_handler. Returns the status; *delivered = content reached the caller */
 static int b_call(int kind, int version, int client, int alg, const char *const login[2], const char *const key[2], int fam, long arg, vbuf *content, int *delivered) {
 	KSI_CTX *ctx = ku_ctx();
@@ -537,11 +578,14 @@ static int b_call(int kind, int version, int client, int alg, const char *const 
 	KSI_Config *cfg = NULL;
 	rsig srcd;
 	vbuf sb;
-	int res = KSI_UNKNOWN_ERROR, is_aggr = kind_is_aggr(kind), i, ep;
+	int res = KSI_UNKNOWN_ERROR, is_aggr = kind_is_aggr(kind), i, ep, push = KPUSH(kind), kind0 = kind;
 
+	kind = KBASE(kind);
+	vb_reset(&G_cb); G_cb_calls = 0;
 	srv_install(b_handler, NULL);
 	b_reset();
-	B.kind = kind; B.version = version; B.cfg_alg = alg; B.nep = CL_NEP(client); B.client = client;
+	B.kind = kind0; B.version = version; B.cfg_alg = alg; B.nep = CL_NEP(client); B.client = client;
+	if (push && client != CL_AHTTP) KSI_CTX_setOption(ctx, is_aggr ? KSI_OPT_AGGR_CONF_RECEIVED_CALLBACK : KSI_OPT_EXT_CONF_RECEIVED_CALLBACK, (void *)push_cb);
 	B.login[0] = login[0]; B.login[1] = login[1]; B.key[0] = key[0]; B.key[1] = key[1];
 	B.fam = fam; B.arg = arg; B.ctx = ctx;
 	*delivered = 0;
@@ -612,6 +656,7 @@ static int b_call(int kind, int version, int client, int alg, const char *const 
 			}
 		}
 		if (res != KSI_OK) vf_harness_error("async handle 0x%x", res);
+		if (push && client == CL_AHTTP && KSI_AsyncService_setOption(svc, KSI_ASYNC_OPT_PUSH_CONF_CALLBACK, (void *)push_cb) != KSI_OK) vf_harness_error("push conf callback option");
 		res = KSI_AsyncService_addRequest(svc, hd);
 		vf_count("impl_calls", 1);
 		if (res != KSI_OK) { KSI_AsyncHandle_free(hd); vf_obs("add=%x", res); }
@@ -653,7 +698,13 @@ static int b_call(int kind, int version, int client, int alg, const char *const 
 		}
 		KSI_AsyncService_free(svc);
 	}
-	if (getenv("VF_DEBUG")) { fprintf(stderr, "[%s %s v%d %s(%ld)] res=0x%x delivered=%d\n", KNAME[kind], CLNAME[client], version, MNAME[fam], arg, res, *delivered); KSI_ERR_statusDump(ctx, stderr); }
+	if (G_cb_calls) {
+		/* configuration content reached the caller through the callback */
+		*delivered = 1;
+		vb_putvb(content, &G_cb);
+		if (!push) vf_fail("callback-without-push", "%s %s: the configuration callback ran although none was registered for this exchange", KNAME[kind0], CLNAME[client]);
+	}
+	if (getenv("VF_DEBUG")) { fprintf(stderr, "[%s %s v%d %s(%ld)] res=0x%x delivered=%d\n", KNAME[kind0], CLNAME[client], version, MNAME[fam], arg, res, *delivered); KSI_ERR_statusDump(ctx, stderr); }
 	KSI_Signature_free(sig); KSI_Signature_free(src); KSI_DataHash_free(hsh);
 	KSI_CTX_free(ctx);
 	B.ctx = NULL;
@@ -720,6 +771,20 @@ static int b_baseline(int kind, int version, int client, int alg, const char *co
 	}
 	vf_outcome("resp:authentic:delivered");
 	if (!b_allowed()) vf_harness_error("the reference does not authenticate its own response (%s v%d)", KNAME[kind], version);
+	if (KPUSH(kind)) {
+		/* signature (checked by the plain kinds) followed by exactly one callback with the pushed values */
+		char b[400];
+		const char *at = NULL;
+		size_t k;
+		if (kind == K_APUSH) snprintf(b, sizeof b, "|CONF:max_level=17;aggr_algo=1;aggr_period=1000;max_req=12;cal_first=-;cal_last=-;uri=%s,", ACONF_URI);
+		else snprintf(b, sizeof b, "|CONF:max_level=-;aggr_algo=-;aggr_period=-;max_req=12;cal_first=%llu;cal_last=%llu;uri=%s,", 1136073600ULL + 1000, (unsigned long long)B_PHEAD, ECONF_URI);
+		for (k = 0; k + strlen(b) + 1 <= base->n; k++) if (memcmp(base->p + k, b, strlen(b) + 1) == 0) { at = (const char *)base->p + k; break; }
+		if (G_cb_calls != 1 || at == NULL || k + strlen(b) + 1 != base->n)
+			vf_fail("pushed-config", "%s v%d %s: authentic response with a pushed configuration: callback ran %d time(s), content tail '%s', expected '%s'", KNAME[kind], version, CLNAME[client], G_cb_calls, G_cb.n ? (const char *)G_cb.p : "", b);
+		else if (k == 0) vf_fail("pushed-config", "%s v%d %s: the pushed configuration was delivered but the signature was not", KNAME[kind], version, CLNAME[client]);
+		else vf_outcome("resp:authentic:pushed-config-delivered");
+		return 1;
+	}
 	if (!check_expected) return 1;
 	vb_init(&exp); vb_init(&can);
 	expected_content(kind, version, &exp);
@@ -779,6 +844,7 @@ static size_t dry_len(int kind, int version, int alg) {
 }
 
 static int kind_exists(int kind, int version, int client) {
+	if (KPUSH(kind)) return version == 2 && !CL_IS_HA(client);    /* pushed configurations through the HA service are consolidated: C15 */
 	if (version == 2) return 1;
 	if (kind == K_ECONF) return 0;                         /* no extender configuration in PDU v1 */
 	if (kind == K_ACONF) return CL_IS_SYNC(client);        /* v1 aggregator configuration rides inside the response element: blocking client only */
@@ -905,7 +971,9 @@ static void part_b(void) {
 }
 
 static void run(void) {
+	vb_init(&G_cb);
 	part_a();
+	g_hdrcb = 0;
 	part_b();
 }
 
